@@ -272,7 +272,10 @@ def _leaf_to_python(fs: FieldSpec, x: object, error_code_cls: object) -> object:
     if k == "uuid":
         return _uuid.UUID(bytes=x)
     if k == "error_code":
-        return error_code_cls(x)
+        try:
+            return error_code_cls(x)
+        except ValueError:
+            return x  # a Kafka code the enum of the tree under test lacks: hand kio the bare int, the checks will see what it does with it
     return x
 
 
